@@ -1,6 +1,7 @@
 // Unit lexer: TokenIterator::next (rustemo/src/lexer.rs) -- try-in-order / finish flag (C06), token span (C13), panic freedom + termination (C15).
 use vstd::prelude::*;
-use std::ops::{RangeFrom, Index};
+use std::ops::{RangeFrom, Range, Index};
+use std::marker::PhantomData;
 use std::slice::SliceIndex;
 use vstd::std_specs::core::IndexSpec;
 verus! {
@@ -8,6 +9,8 @@ verus! {
 //@file POS rustemo/src/position.rs
 //@file INP rustemo/src/input.rs
 //@file LEX rustemo/src/lexer.rs
+//@file PAR rustemo/src/parser.rs
+//@file CTX rustemo/src/context.rs
 
 //@struct POS LineColumn derive=Clone,Copy
 //@end
@@ -206,6 +209,65 @@ pub proof fn lemma_no_token_beyond_a_cut<'i, TR, TK>(recs: Seq<(&'static TR, TK,
 //@  |                         if !cut_after(recs, tl, i0) { assert forall|k: int| 0 <= k < i0 + 1 implies !cut_after(recs, tl, k) by { if k < i0 { } } }
 //@  |                     }
 //@  |                 }
+//@end
+
+// ---- StringLexer::skip (C14 "whitespace skipping sets layout_ahead and advances position") ---------------------------------
+// The whitespace-run length (`input[pos..].chars().take_while(|x| x.is_whitespace()).map(|c| c.len_utf8()).sum()`, an adapter
+// chain) is R-XEXPR'd: ASSUMED to return a byte length n such that input[pos..pos+n] may be sliced.  What is proved is the
+// rest of the real body: a non-empty run is stored as the layout and the position moves to its end; an empty run stores None
+// and leaves the position alone; state and span are not touched (what unit lr_driver assumes of the lexer statements).
+//@trait PAR State methods=default_layout
+//@end
+//@trait CTX Context
+//@  raw
+//@  |     spec fn v_state(&self) -> S;
+//@  |     spec fn v_position(&self) -> Position;
+//@  |     spec fn v_span(&self) -> SourceSpan;
+//@  |     spec fn v_layout_ahead(&self) -> Option<&'i I>;
+//@  fn state ret=r
+//@  |         ensures r == self.v_state(),
+//@  fn position ret=r
+//@  |         ensures r == self.v_position(),
+//@  fn set_position
+//@  |         ensures final(self).v_position() == position, final(self).v_state() == old(self).v_state(),
+//@  |             final(self).v_span() == old(self).v_span(), final(self).v_layout_ahead() == old(self).v_layout_ahead(),
+//@  fn span ret=r
+//@  |         ensures r == self.v_span(),
+//@  fn layout_ahead ret=r
+//@  |         ensures r == self.v_layout_ahead(),
+//@  fn set_layout_ahead
+//@  |         ensures final(self).v_layout_ahead() == layout, final(self).v_state() == old(self).v_state(),
+//@  |             final(self).v_position() == old(self).v_position(), final(self).v_span() == old(self).v_span(),
+//@end
+//@struct LEX StringLexer
+//@end
+//@allow external_body xexpr_ws_len: the whitespace-run length expression of StringLexer::skip (chars/take_while/map/sum adapter chain) moved verbatim into an external function; ASSUMED: the run it measures may be sliced off the input at the position (Kani harness lexer_skip_* checks the real expression for all UTF-8 of <= 5 bytes)
+//@impl LEX /^impl < 'i , C : Context < 'i , str , S , TK > , S : State , TK , TR : TokenRecognizer < 'i > , const TERMINAL_COUNT : usize , > StringLexer/
+//@  fn skip
+//@  |         requires input.index_req(&RangeFrom { start: old(context).v_position().pos }),
+//@  |         ensures
+//@  |             final(context).v_state() == old(context).v_state(), final(context).v_span() == old(context).v_span(),
+//@  |             ({
+//@  |                 let p = old(context).v_position();
+//@  |                 let n = ws_len(input, p.pos);
+//@  |                 if n > 0 {
+//@  |                     // [C14] the skipped run is stored as the layout and the position moves to its end
+//@  |                     &&& final(context).v_layout_ahead() == Some(str_index(input, Range { start: p.pos, end: (p.pos + n) as usize })) // [C14]
+//@  |                     &&& final(context).v_position() == v_position_after(str_index(input, Range { start: p.pos, end: (p.pos + n) as usize }), p) // [C14]
+//@  |                 } else {
+//@  |                     &&& final(context).v_layout_ahead() is None // [C14]
+//@  |                     &&& final(context).v_position() == p
+//@  |                 }
+//@  |             }),
+//@  xexpr xexpr_ws_len(input, &*context) = input[context.position().pos..].chars().take_while(|x| x.is_whitespace()).map(|c| c.len_utf8()).sum()
+//@end
+/// the byte length of the whitespace run at `pos` (what the R-XEXPR'd expression returns)
+pub uninterp spec fn ws_len(input: &str, pos: usize) -> usize;
+//@xexprfn xexpr_ws_len
+//@  | fn xexpr_ws_len<'i, C: Context<'i, str, S, TK>, S: State, TK>(input: &'i str, context: &C) -> (r: usize)
+//@  |     requires input.index_req(&RangeFrom { start: context.v_position().pos }),
+//@  |     ensures r == ws_len(input, context.v_position().pos), context.v_position().pos + r <= usize::MAX,
+//@  |         input.index_req(&Range { start: context.v_position().pos, end: (context.v_position().pos + r) as usize }),
 //@end
 
 } // verus!
